@@ -114,7 +114,7 @@ def accept(tag: str, prop: str, needs: str) -> dict:
 
 
 def _checks_for(seed_id: str, args):
-    checks = [a for a in args if a.startswith("C") and a[1:3].isdigit()]
+    checks = [a for a in args if a.startswith("C") and a[1:3].isdigit() and len(a) == 3]
     if not checks:
         meta = json.load(open(os.path.join(SEEDED, seed_id, "meta.json")))
         checks = [meta["property"]]
@@ -210,7 +210,8 @@ def main() -> None:
         jobs = int(_opt(args, "--jobs", "1"))
         record = "--record" in args
         args = [a for a in args if a != "--record"]
-        ids = [d for d in sorted(os.listdir(SEEDED)) if os.path.exists(os.path.join(SEEDED, d, "patch.diff"))]
+        only = _opt(args, "--only", "")
+        ids = [d for d in sorted(os.listdir(SEEDED)) if os.path.exists(os.path.join(SEEDED, d, "patch.diff")) and (not only or d in only.split(","))]
         if mode is inplace:
             jobs = 1
 
